@@ -515,7 +515,9 @@ class HklCalculation:
     ) -> None:
         hkl = self.get_hkl(pos, wavelength)
         e = 0.001
-        if (abs(hkl[0] - h) > e) or (abs(hkl[1] - k) > e) or (abs(hkl[2] - l) > e):
+        if not (
+            (abs(hkl[0] - h) <= e) and (abs(hkl[1] - k) <= e) and (abs(hkl[2] - l) <= e)
+        ):
             s = "ERROR: The angles calculated for hkl=({:f},{:f},{:f}) were {}.\n".format(
                 h,
                 k,
